@@ -6,7 +6,15 @@ from fractions import Fraction
 
 import z3
 
+from z3 import z3core as _core
+
 CUR = None  # the active Engine (set by Engine.run_path)
+_CTX = z3.main_ctx().ref()
+
+
+def _lb(t):
+    """1 = literally true, -1 = literally false, 0 = neither (one C call instead of z3py's is_true/is_false)."""
+    return _core.Z3_get_bool_value(_CTX, t.ast)
 
 
 def _eng():
@@ -72,15 +80,14 @@ def _conc(x):
 
 
 def _mk_bool(t):
-    if z3.is_true(t):
-        return True
-    if z3.is_false(t):
-        return False
-    return SymBool(t)
+    b = _lb(t)
+    if b == 0:
+        return SymBool(t)
+    return b > 0
 
 
 def _mk_int(t):
-    if z3.is_int_value(t):
+    if _core.Z3_get_ast_kind(_CTX, t.ast) == z3.Z3_NUMERAL_AST:
         return t.as_long()
     return SymInt(t)
 
@@ -617,11 +624,10 @@ def term_bool(x):
         except Exception:
             pass
         raise TypeError("not a boolean: %r" % (x,))
-    if z3.is_true(t):
-        return True
-    if z3.is_false(t):
-        return False
-    return t
+    b = _lb(t)
+    if b == 0:
+        return t
+    return b > 0
 
 
 def AND(*xs):
